@@ -91,9 +91,42 @@ def gen_overlapping_upgrades(rng, tier, i):
     return plan
 
 
+def gen_rival_handshake(rng, tier, i):
+    """Either server: while the client's own handshake is under way a second
+    socket (same session id) runs one too; the frames of the two interleave
+    by the latencies the tape draws."""
+    plan = _gen.gen_server_plan(rng, _gen.profile(
+        max_sessions=2, p_ws_open=0.0, p_upgrade=1.0, p_sabotage=0.0,
+        p_second_upgrade=0.0, sends=(2, 8), client_msgs=(0, 2), p_end=0.1,
+        p_app_disconnect=0.0, p_disconnect_all=0.0, p_handler_fault=0.0,
+        p_reject=0.0, p_ws_fault=0.0, p_overlap_polls=0.0,
+        p_pong_misbehave=0.0, p_late_open=0.0))
+    for s in plan['sessions']:
+        ups = s.get('upgrades') or []
+        if not ups:
+            continue
+        ups[0].pop('steps', None)
+        s['upgrades'] = ups[:1]
+        s.setdefault('raw', []).append({
+            't': max(0.0, ups[0]['t'] + rng.choice([-4, -1, 0, 1, 2, 4, 8])
+                     * TICK),
+            'method': 'GET', 'ws': True, 'sidk': 'own',
+            'query': 'transport=websocket&EIO=4&c={c}&sid={sid}',
+            'headers': [],
+            'script': [['send', '2probe'], ['wait_frame'],
+                       ['delay', rng.choice([0, 1, 2, 4, 8, 16])],
+                       ['send', '5']],
+            'hold': 3000})
+        s['raw'].sort(key=lambda r: r['t'])
+    return plan
+
+
 def gen(rng, tier, i):
-    if rng.random() < 0.08:
+    r = rng.random()
+    if r < 0.08:
         return gen_overlapping_upgrades(rng, tier, i)
+    if r < 0.16:
+        return gen_rival_handshake(rng, tier, i)
     return _gen_general(rng, tier, i)
 
 
